@@ -17,11 +17,11 @@ def funcs():
     return {'com': centroid_com, 'quadratic': centroid_quadratic, '1dg': centroid_1dg, '2dg': centroid_2dg}
 
 
-def call(fn, data, mask=None):
+def call(fn, data, mask=None, error=None):
     with warnings.catch_warnings():
         warnings.simplefilter('ignore')
         try:
-            x, y = fn(data, mask=mask)
+            x, y = fn(data, mask=mask) if error is None else fn(data, mask=mask, error=error)
         except Exception:  # noqa
             return None
     if not (np.isfinite(x) and np.isfinite(y)):
@@ -112,10 +112,17 @@ def rec_pair(seed):
         d2 = data * rng.choice([0.125, 3.0, 8.0, 1000.0])
     else:
         d2 = data.copy(); d2[mask] = rng.choice([-50.0, 1e5, 0.0])
+    e1 = e2 = None
+    if name in ('1dg', '2dg') and rel in ('maskedvalues', 'rescale') and rng.random() < 0.6:
+        # the Gaussian centroids take an error array: the error values under the mask are as irrelevant as the data values
+        e1 = np.sqrt(data + 1.0)
+        e2 = e1 * (d2.flat[0] / data.flat[0] if rel == 'rescale' else 1.0)
+        if rel == 'maskedvalues':
+            e2 = e1.copy(); e2[mask] = rng.choice([1e6, 1e-6])
     f = funcs()[name]
-    r1 = call(f, data.copy(), None if mask is None else mask.copy())
-    r2 = call(f, np.ascontiguousarray(d2), None if m2 is None else np.ascontiguousarray(m2))
-    return {'id': seed, 'kind': 'pair', 'func': name, 'rel': rel, 'w': w, 'h': h, 'isnan1': r1 is None, 'isnan2': r2 is None,
+    r1 = call(f, data.copy(), None if mask is None else mask.copy(), e1)
+    r2 = call(f, np.ascontiguousarray(d2), None if m2 is None else np.ascontiguousarray(m2), e2)
+    return {'id': seed, 'kind': 'pair', 'func': name, 'rel': rel, 'with_error': e1 is not None, 'w': w, 'h': h, 'isnan1': r1 is None, 'isnan2': r2 is None,
             'x1': fx(r1[0]) if r1 else 0, 'y1': fx(r1[1]) if r1 else 0, 'x2': fx(r2[0]) if r2 else 0, 'y2': fx(r2[1]) if r2 else 0}
 
 
